@@ -43,29 +43,6 @@ fn chunk_header_roundtrip() {
     }
 }
 
-/// serialize_chunk (scheme None) writes header + payload that deserialize_chunk reads back, for
-/// every payload of 0..=N bytes; lengths reported match.
-#[kani::proof]
-#[kani::stub(alloc::fmt::format, fmt_stub)]
-#[kani::stub(core::fmt::write, fmt_write_stub)]
-#[kani::stub(std::backtrace::Backtrace::capture, bt_stub)]
-fn chunk_roundtrip_none_8() {
-    const N: usize = 8;
-    let d: [u8; N] = kani::any();
-    let len: usize = kani::any();
-    kani::assume(len <= N);
-    let mut buf = Vec::new();
-    let w = serialize_chunk(&d[..len], &mut buf, Some(CompressionScheme::None)).unwrap();
-    assert!(w == 8 + len && buf.len() == w, "C07: serialized size is header + payload");
-    let (out, consumed, ulen) = deserialize_chunk(&mut Cursor::new(&buf[..])).unwrap();
-    assert!(consumed == w && ulen as usize == len && out.len() == len, "C07: decoder reports the written lengths");
-    let k: usize = kani::any();
-    kani::assume(k < len);
-    assert!(out[k] == d[k], "C07: decoded bytes equal the input");
-    kani::cover!(len == N, "c07 chunk: full-length payload");
-    std::mem::forget((buf, out));
-}
-
 /// bg4_regroup(bg4_split(d)) == d for every d of length N (all residues mod 4); the pointer
 /// arithmetic of the `unsafe` blocks is checked by Kani's memory-safety checks (not disabled here).
 fn bg4_roundtrip<const N: usize>() {
